@@ -6,11 +6,15 @@
 (* A state is ONE table row: an abstract credential presented by a client   *)
 (* (password | plain public key | OpenSSH user certificate), the server's   *)
 (* authorized_keys entries / application callbacks, the client's address    *)
-(* and user name.  The operators below are the decision functions:          *)
-(*   Accepted(c)          is the credential admitted                        *)
-(*   Allowed(c, op)       may the post-authentication operation op proceed  *)
-(*   OpenAllowed(c, d)    direct-tcpip to destination d (permitopen)         *)
-(*   Started(c, req)      what the session is started with for request req  *)
+(* and user name.  The decision functions:                                  *)
+(*   Session(c)           the connection after the authentication exchange: *)
+(*                        admitted or not (and why not), the authorized_keys*)
+(*                        options in force (_key_options) and the           *)
+(*                        certificate options in force (_cert_options)      *)
+(*   Allowed(s, op)       may the post-authentication operation op proceed  *)
+(*   OpenAllowed(s, d)    direct-tcpip to destination d (permitopen)         *)
+(*   Started(s, req)      what the session is started with for request req  *)
+(*   EnvSeen(s)           environment variable N as the session sees it     *)
 (* transcribed from                                                         *)
 (*   connection.py  _validate_openssh_certificate, _validate_client_public_ *)
 (*                  key, check_key_permission, check_certificate_permission,*)
@@ -351,7 +355,21 @@ TrustRows ==
              EXCEPT !.cbkey = cb] :
              isca \in BOOLEAN, k \in {"ca", "user", "other"}, cb \in BOOLEAN}
 
+\* F. everything at once: no option disturbs another one
+MixRows ==
+    {At([WithOpen(WithCmd(CertRow("mix", f, [Cert(X) EXCEPT !.force = fc,
+                                                           !.src = {"10.0.0.0/24"}]), k),
+                  {Dest("h1", "80"), Dest("h2", "22")})
+            EXCEPT !.entries[1].frm = <<L("10.0.*")>>, !.entries[1].env = "kv"], a) :
+         f \in {<<>>, <<"no-agent-forwarding">>}, X \in {{"port-forwarding"}, Perms \ {"pty"}},
+         fc \in CertCmds, k \in {"-", "kc"}, a \in Addrs}
+    \cup {At([WithOpen(WithCmd(KeyRow("mix", f), k), {Dest("h1", "*")})
+            EXCEPT !.entries[1].frm = <<L("10.0.0.0/24")>>, !.cbkey = TRUE], a) :
+         f \in {<<"no-pty">>, <<"no-X11-forwarding", "no-agent-forwarding">>},
+         k \in {"-", "kc"}, a \in Addrs}
+
 Rows == (IF "perm" \in Sections THEN PermRows ELSE {})
+        \cup (IF "mix" \in Sections THEN MixRows ELSE {})
         \cup (IF "seq" \in Sections THEN SeqRows ELSE {})
         \cup (IF "cmd" \in Sections THEN CmdRows ELSE {})
         \cup (IF "open" \in Sections THEN OpenRows ELSE {})
